@@ -353,6 +353,10 @@ class State:
             return 'FAIL addSimplex did not add exactly one simplex'
         if d != '-' and B.getAttributes(c, n) != self.ex.dicts[d]:
             return 'FAIL attributes of the new simplex are not the ones given'
+        fs = B.faces(c, n)
+        want = set().union(*[B.basisOf(c, f) for f in fs]) if fs else {n}
+        if set(B.basisOf(c, n)) != want:
+            return 'FAIL the new simplex %r has basis %r, its faces have the points %r' % (n, B.basisOf(c, n), want)
         return self._frame(h, old['basis']) or 'ok'
 
     def o_post_addfrom(self, dst, src, ren):
@@ -782,7 +786,83 @@ class State:
                 return 'FAIL attributes of %r in the composition: %r' % (s, B.getAttributes(d, s))
         return 'ok'
 
+    # ---- C15 (names that print alike) -------------------------------------------------------------------
+    def o_disjoint_twin(self, seed):
+        import random
+        rng = random.Random(int(seed))
+        twins = [0, '0', 1, '1', 2, '2', 3, '3']
+        def build():
+            c = SimplicialComplex()
+            pts = rng.sample(twins, rng.randrange(2, 7))
+            for p in pts:
+                c.addSimplex(id=p, attr={'p': repr(p)})
+            enames = [10, '10', 11, '11', 12, '12']
+            rng.shuffle(enames)
+            for (a, b), e in zip(rng.sample(list(itertools.combinations(pts, 2)), min(3, len(pts) * (len(pts) - 1) // 2)), enames):
+                c.addSimplex(fs=[a, b], id=e, attr={'e': repr(e)})
+            return c
+        a, b = build(), build()
+        before = {s: (B.orderOf(a, s), frozenset(B.faces(a, s)), dict(B.getAttributes(a, s))) for s in B.simplices(a)}
+        shared = [s for s in B.simplices(a) if s in B.simplices(b)]
+        sb = full_state(b)
+        try:
+            m = a.relabelDisjointFrom(b)
+        except Exception as x:
+            return 'FAIL relabelDisjointFrom raised %s: %s (shared names %r)' % (type(x).__name__, x, shared)
+        if full_state(b) != sb:
+            return 'FAIL relabelDisjointFrom changed its argument'
+        if any(s in B.simplices(b) for s in B.simplices(a)):
+            return 'FAIL a name is still shared after relabelDisjointFrom'
+        if set(m.keys()) != set(shared) or [type(k) for k in sorted(m, key=repr)] != [type(k) for k in sorted(shared, key=repr)]:
+            return 'FAIL relabelDisjointFrom renamed %r, the shared names were %r' % (list(m.keys()), shared)
+        f = lambda s: m.get(s, s)
+        if len(B.simplices(a)) != len(before):
+            return 'FAIL relabelDisjointFrom changed the number of simplices'
+        for s, (k, fs, at) in before.items():
+            t = f(s)
+            if t not in B.simplices(a) or B.orderOf(a, t) != k or frozenset(B.faces(a, t)) != frozenset(f(x) for x in fs) or B.getAttributes(a, t) != at:
+                return 'FAIL %r was not carried along the renaming' % (s,)
+        return 'ok'
+
     # ---- C09 -------------------------------------------------------------------------------------------
+    def o_fcopyinto(self, h):
+        """Filtration.copy(target): into an existing filtration that has simplices and index values of its own,
+        some of them index values of the source; names disjoint"""
+        f = copy.deepcopy(self.C(h))
+        inds = f.indices()
+        if not inds:
+            return 'ok'
+        try:
+            for variant in range(3):
+                t = Filtration(inds[0] if variant == 0 else inds[-1])
+                own = {}
+                for j, i in enumerate(([inds[-1], inds[0]] if variant == 1 else inds[:2]) + [inds[-1] + 1]):
+                    t.setIndex(i)
+                    n = ('own', variant, j)
+                    t.addSimplex(id=n, attr={'own': j}); own[n] = i
+                at = inds[len(inds) // 2] if variant == 2 else t.getIndex()
+                t.setIndex(at)
+                r = f.copy(t)
+                if r is not t:
+                    return 'FAIL copy(target) did not return the target'
+                if t.getIndex() != at:
+                    return 'FAIL copy(target) left the target at index %r instead of %r' % (t.getIndex(), at)
+                for n, i in own.items():
+                    if not t.containsSimplexAtSomeIndex(n) or t.addedAtIndex(n) != i or B.getAttributes(t, n) != {'own': own_j(n)}:
+                        return 'FAIL copy(target) disturbed the target\'s own simplex %r' % (n,)
+                for s in B.simplices(f):
+                    if not t.containsSimplexAtSomeIndex(s):
+                        return 'FAIL %r was not copied into the target filtration' % (s,)
+                    if t.addedAtIndex(s) != f.addedAtIndex(s):
+                        return 'FAIL %r is born at %r in the source and at %r in the target filtration' % (s, f.addedAtIndex(s), t.addedAtIndex(s))
+                    if B.faces(t, s) != B.faces(f, s) or B.getAttributes(t, s) != B.getAttributes(f, s) or B.getAttributes(t, s) is B.getAttributes(f, s):
+                        return 'FAIL %r differs between the source and the target filtration' % (s,)
+                if len(B.simplices(t)) != len(B.simplices(f)) + len(own):
+                    return 'FAIL wrong number of simplices in the target filtration'
+        except Exception as x:
+            return 'FAIL copy into an existing filtration raised %s: %s' % (type(x).__name__, x)
+        return 'ok'
+
     def o_samecontent(self, ha, hb):
         a, b = self.C(ha), self.C(hb)
         if isinstance(a, Filtration) and not isinstance(b, Filtration):
@@ -825,6 +905,8 @@ class State:
     def o_noshare(self, *hs):
         seen = {}
         for h in hs:
+            if h not in self.ex.objs:
+                continue            # (a constructor call that was rejected made no object)
             c = self.C(h)
             ids = [('rep', id(c.representation()))] + [('dict', id(B.getAttributes(c, s))) for s in B.simplices(c)]
             for kind, i in ids:
@@ -1031,6 +1113,16 @@ class State:
                 if (s in f) != (births[s] <= i):
                     f.setIndex(cur)
                     return 'FAIL membership of %r at index %r' % (s, i)
+            per = collections.Counter(B.orderOf(f, s) for s in want)
+            cnt = list(f.numberOfSimplicesOfOrder())
+            while cnt and cnt[-1] == 0:
+                cnt.pop()
+            if cnt != [per[k] for k in range(max(per) + 1)] if per else cnt != []:
+                f.setIndex(cur)
+                return 'FAIL at index %r the complex seen has %r simplices per order, numberOfSimplicesOfOrder() says %r' % (i, dict(per), cnt)
+            if len(f) != len(want) or f.numberOfSimplices() != len(want):
+                f.setIndex(cur)
+                return 'FAIL at index %r the complex seen has %d simplices, len() says %d' % (i, len(want), len(f))
             got = f.simplicesAddedAtIndex(i)
             if set(got) != {s for s in ss if births[s] == i} or [B.orderOf(f, s) for s in got] != sorted(B.orderOf(f, s) for s in got):
                 f.setIndex(cur)
@@ -1226,6 +1318,9 @@ class State:
     def o_additive(self, ha, hb, hu, key, dflt):
         k = key_obj(int(key)); dflt = int(dflt)
         I = EulerIntegrator(k, dflt)
+        sa, sb, su = set(B.simplices(self.C(ha))), set(B.simplices(self.C(hb))), set(B.simplices(self.C(hu)))
+        if sa & sb or su != sa | sb:
+            raise RuntimeError('not a disjoint union')        # (a shrunk script that lost its renaming)
         a, b, u = I.integrate(self.C(ha)), I.integrate(self.C(hb)), I.integrate(self.C(hu))
         J = self.ex.integrator(k, dflt)
         if (J.integrate(self.C(hu)), J.integrate(self.C(hb)), J.integrate(self.C(ha))) != (u, b, a):
@@ -1349,6 +1444,10 @@ class State:
         if changed:
             return 'FAIL changing a container returned by a query changed the complex'
         return 'ok'
+
+
+def own_j(n):
+    return n[2]
 
 
 class _Fake:
